@@ -30,6 +30,9 @@ fn gen_scenario(rng: &mut vsim::rng::Rng) -> Scenario {
     cfg.p_act_if = *rng.pick(&[0, 150, 300]);
     cfg.p_empty_branch = *rng.pick(&[0, 150, 400]);
     cfg.max_steps = 1 + rng.below(4) as u32;
+    // lifecycle-hook acts are not generated here: an act started by a hook can be the last thing its
+    // parent waits for and nobody reviews the parent then (recorded finding C01-hook-act-strands-*,
+    // see known_findings.jsonl); the quantifier of C01 does not include setup/hook acts
     let mut g = Gen::new(rng, cfg);
     let m = g.workflow("m");
     let mut sc = Scenario::default();
@@ -164,7 +167,15 @@ pub fn progress_oracle(sc: &Scenario, rec: &RunRecord, expect_all_answered: bool
                     p.state,
                     p.tasks.iter().filter(|t| !is_terminal_state(&t.state)).map(|t| format!("{} {} {}", t.kind, t.nid, t.state)).collect::<Vec<_>>()
                 );
-                out.push(Violation::new("C01", kind, json!({"task": culprit.0, "state": culprit.1, "role": culprit.2}), detail));
+                // lifecycle hooks in the model are part of the signature (the recorded hook finding must
+                // not hide a stranded task in a model without hooks)
+                let mut hooks = false;
+                for m in &sc.models {
+                    hooks |= !m.setup.is_empty();
+                    m.visit_steps(&mut |s| hooks |= !s.setup.is_empty());
+                    m.visit_acts(&mut |a| hooks |= !a.setup.is_empty());
+                }
+                out.push(Violation::new("C01", kind, json!({"task": culprit.0, "state": culprit.1, "role": culprit.2, "hooks_in_model": hooks}), detail));
                 return out;
             }
         }
